@@ -9,6 +9,7 @@ State: the model `World` (tree as last reported by the implementation + model it
 reference sorted map `ref` (driven by the op texts only), one property tracker per iterator, and the
 same three things for a `TreeIndex`.
 
+  `@d <op>`             the op applied to the state saved at trie depth `d` (see `dstep`); answer as for `<op>`
   `reset`               answer `ok`                           (fresh state inside a case; corpus only)
 ops on a treeList (`k`, `g`, `i` are decimal numbers):
   `ins k g` / `del k`   answer `len=<n> par=<0|1> ok=<0|1> [<preorder: k:g:bal | .>]`
@@ -419,7 +420,34 @@ def step (st : St) (op impl : String) : St × Verdict :=
     | _, _ => (st, .bad)
   | _ => (st, .bad)
 
-def family : Family := { σ := St, init := {}, step := step }
+/-! ### histories enumerated as a trie
+
+`@d <op>`: take the state reached by the line that was written at depth `d` (depth 0 = the state after the
+last plain line), apply `<op>`, remember the result as depth `d+1`.  The exhaustive part of the thorough
+tier writes every prefix of every history once instead of every history in full. -/
+
+structure DSt where
+  cur : St := {}
+  saved : Array St := #[{}]
+
+def dstep (ds : DSt) (op impl : String) : DSt × Verdict :=
+  if op.startsWith "@" then
+    match words op with
+    | dw :: rest =>
+      match (sdrop dw 1).toNat? with
+      | some d =>
+        match ds.saved[d]? with
+        | some base =>
+          let (st', v) := step base (" ".intercalate rest) impl
+          ({ cur := st', saved := (ds.saved.extract 0 (d + 1)).push st' }, v)
+        | none => (ds, .bad)
+      | none => (ds, .bad)
+    | [] => (ds, .bad)
+  else
+    let (st', v) := step ds.cur op impl
+    ({ cur := st', saved := #[st'] }, v)
+
+def family : Family := { σ := DSt, init := {}, step := dstep }
 
 end B6.Driver.C07
 
